@@ -29,7 +29,9 @@ CFG = {
             "{0,.5,..,3}^2 and every ordered quadruple on [0,2]^2 and [0,3]^2), against every point of the "
             "half-integer grid one unit beyond (for [0,2]^2 with both spellings of zero) + seeded samples of quadrilaterals, pentagons, 1-3 ring polygons, "
             "2-3 member multipolygons, half-integer and long rings, magnitudes up to 2^10 + random float polygons with points kept clear of edges "
-            "(incl. ray through vertex, 1-3 ulp high edges, x = -0.0) judged on the exact dyadic values + the four receivers. "
+            "(incl. ray through vertex, 1-3 ulp high edges, x = -0.0) judged on the exact dyadic values + the four receivers "
+            "+ the sampled and float shapes at dyadic scales 2^±20..2^±1000. Every query is asked twice against three slice layouts of the "
+            "polygon (own arrays / windows of one flat buffer with spare capacity / prefix re-slices) with a bit-for-bit snapshot check. "
             "A grid line is one polygonal geometry against all grid points; distinct = distinct input line; non-trivial = class not 'skipped'",
     "timeout": {"quick": 900, "thorough": 3000},
 }
